@@ -247,3 +247,78 @@ func init() {
 			return fmt.Sprint(n), v, n
 		})
 }
+
+// A property value that Refresh REJECTS must not change the switch it names: after a valid configuration
+// set enableCaller / fastCaller, a later Refresh carrying an ill-typed value for one of them fails and the
+// next valid configuration (which does not mention them) still reports locations the way the last valid
+// setting said.
+func init() {
+	type rejCase struct {
+		Enable bool   `json:"last_valid_enable_caller"`
+		Fast   bool   `json:"last_valid_fast_caller"`
+		Prop   string `json:"rejected_property"`
+		Val    string `json:"rejected_value"`
+	}
+	definePart("C11", "c11/rejected-property-values", "qt", "last valid (enableCaller, fastCaller) in {on,off}^2, then a Refresh rejected for an ill-typed value of either property (7 values), then a configuration that sets neither",
+		func(tier string, yield func(rejCase)) {
+			for _, en := range []bool{true, false} {
+				for _, fa := range []bool{false, true} {
+					for _, prop := range []string{"enableCaller", "fastCaller"} {
+						for _, val := range []string{"yes", "enabled", "2", "TRUE!", "on", "nil", " "} {
+							yield(rejCase{en, fa, prop, val})
+						}
+					}
+				}
+			}
+		},
+		func(c rejCase) (string, []Violation, int) {
+			confReset()
+			key := fmt.Sprintf("last valid enableCaller=%v fastCaller=%v, then %s=%q", c.Enable, c.Fast, c.Prop, c.Val)
+			base := map[string]string{"appender.r0.type": "Rec", "logger.root.type": "Logger", "logger.root.appenderRef.ref": "r0", "logger.root.level": "TRACE"}
+			with := func(kv ...string) map[string]string {
+				m := map[string]string{}
+				for k, v := range base {
+					m[k] = v
+				}
+				for i := 0; i+1 < len(kv); i += 2 {
+					m[kv[i]] = kv[i+1]
+				}
+				return m
+			}
+			if err, pn := safeRefresh(with("enableCaller", fmt.Sprint(c.Enable), "fastCaller", fmt.Sprint(c.Fast))); err != nil || pn != nil {
+				return "refresh-failed", []Violation{{Clause: "valid-config-rejected", Key: key, Detail: fmt.Sprintf("err=%v panic=%v", err, pn)}}, 1
+			}
+			log.Destroy()
+			var v []Violation
+			err, pn := safeRefresh(with(c.Prop, c.Val))
+			if pn != nil {
+				v = append(v, Violation{Clause: "refresh-panicked", Key: key, Detail: fmt.Sprint(pn)})
+			}
+			accepted := err == nil && pn == nil
+			safeCall(log.Destroy)
+			if accepted {
+				// strconv.ParseBool-style leniency is not ours to judge here (C15 owns ill-typed values): nothing rejected, nothing to check
+				return "accepted", v, 1
+			}
+			if en, fa, ok := log.VerifCallerMode(); ok && (en != c.Enable || fa != c.Fast) {
+				v = append(v, Violation{Clause: "rejected-value-changed-the-switch", Key: key, Detail: fmt.Sprintf("after the rejected Refresh the switches are enableCaller=%v fastCaller=%v, the last valid configuration set %v / %v", en, fa, c.Enable, c.Fast)})
+			}
+			if err, pn := safeRefresh(with()); err != nil || pn != nil {
+				return "refresh-failed", append(v, Violation{Clause: "valid-config-rejected", Key: key, Detail: fmt.Sprintf("after the rejected one: err=%v panic=%v", err, pn)}), 1
+			}
+			wf, wl := c11Sites[0].run()
+			log.Destroy()
+			items := recStore["r0"]
+			if len(items) != 1 {
+				return "count", append(v, Violation{Clause: "site-did-not-log", Key: key, Detail: fmt.Sprintf("%d events recorded, want 1", len(items))}), 1
+			}
+			gf, gl := items[0].Event.File, items[0].Event.Line
+			if c.Enable && (gf != wf || gl != wl) {
+				v = append(v, Violation{Clause: "wrong-location", Key: key, Detail: fmt.Sprintf("event says %q:%d, the calling statement is at %s:%d (caller lookup was last validly switched ON)", gf, gl, wf, wl)})
+			}
+			if !c.Enable && (gf != "" || gl != 0) {
+				v = append(v, Violation{Clause: "location-not-empty", Key: key, Detail: fmt.Sprintf("event carries %s:%d although caller lookup was last validly switched OFF", gf, gl)})
+			}
+			return fmt.Sprintf("%s:%d", gf, gl), v, 1
+		})
+}
